@@ -8,7 +8,7 @@ import vcommon as vc
 SPEC = os.path.join(vc.VERIF, "spec", "Graph")
 TRACE_CFG = os.path.join(SPEC, "GraphTrace.cfg")
 G_INV = "TypeOK OutcomeLegal EndpointsExist ListedByBoth NoDangling TablesMatchRef"
-O_INV = "OTypeOK OneToOne BackAgain ForgetDeleted MapsMatchRef CopyIndependent"
+O_INV = "OTypeOK OneToOne BackAgain ForgetDeleted MapsMatchRef CopyIndependent SidesIndependent"
 O_PROP = "CopySame Independent RaiseKeepsState"
 
 
@@ -17,20 +17,30 @@ def _graph_cfg(path, maxn, maxe):
         f.write("SPECIFICATION Spec\nCONSTANTS\n  MaxN = %d\n  MaxE = %d\nINVARIANTS %s\nCHECK_DEADLOCK FALSE\n" % (maxn, maxe, G_INV))
 
 
-def _obs_cfg(path, maxn, maxe, nobjs, eobjs, idxs, maxobs, depth):
+def _obs_cfg(path, maxn, maxe, nobjs, eobjs, idxs, maxobs, depth, clone=False):
     """depth = 0: every history (module Observer); depth > 0: every history of at most `depth` calls
     (module ObserverMC: exact step counter, independent of the number of TLC workers)."""
     with open(path, "w") as f:
         f.write("SPECIFICATION %s\nCONSTANTS\n  MaxN = %d\n  MaxE = %d\n  NObjs = {%s}\n  EObjs = {%s}\n  Idxs = {%s}\n"
-                "  MaxObs = %d\n  MaxDepth = %d\n%sINVARIANTS %s %s\nPROPERTIES %s\nCHECK_DEADLOCK FALSE\n" % (
+                "  MaxObs = %d\n  MaxDepth = %d\n  WithClone = %s\n%sINVARIANTS %s %s\nPROPERTIES %s\nCHECK_DEADLOCK FALSE\n" % (
                     "MCSpec" if depth > 0 else "OSpec",
                     maxn, maxe, ", ".join(map(str, nobjs)), ", ".join(map(str, eobjs)), ", ".join(map(str, idxs)), maxobs,
-                    depth, "CONSTRAINT DepthBound\n" if depth > 0 else "", G_INV, O_INV, O_PROP))
+                    depth, "TRUE" if clone else "FALSE", "CONSTRAINT DepthBound\n" if depth > 0 else "", G_INV, O_INV, O_PROP))
 
 
-def _merge_untaken(untaken):
-    """Copy/Drop cannot happen with MaxObs=1; they are covered by the two-observer configuration."""
-    return [u for u in untaken if not (u.startswith("Observer/obs1") and u.rsplit(":", 1)[1] in ("Copy", "Drop"))]
+def _merge_untaken(untaken, models):
+    """An action counts as untaken only if no configuration took it: Copy/Drop/Assign need two
+    observers, Clone/Swap/... need WithClone, CreateNodeFromEdge needs more ids than the small
+    Observer configurations have (the Graph configuration takes it)."""
+    def base(a):
+        a = a[2:] if a.startswith("S_") else a
+        return a[1:] if a[:1] == "G" and a[1:2].isupper() else a
+    taken = set()
+    for name, r in models:
+        for a, (t, g) in r.coverage().items():
+            if g > 0:
+                taken.add(base(a))
+    return [u for u in untaken if base(u.rsplit(":", 1)[1]) not in taken]
 
 
 def _sig(rj):
@@ -94,6 +104,51 @@ def _corruption_selftest(ck, trace, wd):
     os.remove(p)
 
 
+def _bfs_runs(ck, exe, wd, cfgs, depth, maxnodes, avoid, bfs_sum, join):
+    """Breadth-first traces: one driver process per configuration (four at a time); the traces are
+    validated one by one, or joined into one file first (quick tier: fewer TLC start-ups)."""
+    from concurrent.futures import ThreadPoolExecutor
+
+    def drive(c):
+        tr = os.path.join(wd, "trace-bfs-%s.ndjson" % c)
+        if os.path.exists(tr):
+            os.remove(tr)
+        s = vc.run_driver(exe, ["--mode", "bfs", "--depth", depth, "--maxnodes", maxnodes, "--cfg", c] + avoid, tr, timeout=3000)
+        return c, tr, s
+
+    def account(res):
+        for c, tr, s in res:
+            _driver_ok(ck, "bfs-" + c, s, tr)
+            bfs_sum["states"] += s.get("states", 0)
+            bfs_sum["transitions"] += s.get("transitions", 0)
+            bfs_sum["per_cfg"] += [[depth, maxnodes] + x for x in s.get("per_cfg", [])]
+            if s.get("truncated"):
+                bfs_sum["truncated"].append(c)
+
+    if join:
+        with ThreadPoolExecutor(max_workers=6) as ex:
+            res = list(ex.map(drive, cfgs))
+        account(res)
+        joined = os.path.join(wd, "trace-bfs-joined.ndjson")
+        with open(joined, "w") as out:
+            for c, tr, s in res:
+                with open(tr) as f:
+                    for ln in f:
+                        out.write(ln)
+                os.remove(tr)
+        _validate(ck, joined)
+        os.remove(joined)
+        return
+    for g0 in range(0, len(cfgs), 4):
+        group = cfgs[g0:g0 + 4]
+        with ThreadPoolExecutor(max_workers=4) as ex:
+            res = list(ex.map(drive, group))
+        account(res)
+        for c, tr, s in res:
+            _validate(ck, tr)
+            os.remove(tr)
+
+
 def run(tier, seed):
     ck = vc.Check("C14", tier, seed)
     quick = tier == "quick"
@@ -102,81 +157,69 @@ def run(tier, seed):
     #    (VERIF_C14_MODELS=0 skips them: they do not depend on the C++ tree, which is all a
     #     source-mutant self-test varies)
     models = os.environ.get("VERIF_C14_MODELS", "1") != "0"
-    cfg = os.path.join(wd, "graph.cfg")
-    gn, ge = (3, 4) if quick else (4, 4)
-    _graph_cfg(cfg, gn, ge)
+    done = []
     if models:
+        cfg = os.path.join(wd, "graph.cfg")
+        gn, ge = (3, 4) if quick else (4, 4)
+        _graph_cfg(cfg, gn, ge)
         r = vc.model_check(SPEC, "Graph", cfg, coverage=True, timeout=3000, heap="12g")
         ck.add_model("Graph", r, "MaxN=%d MaxE=%d" % (gn, ge))
+        done.append(("Graph", r))
         if r.invariant:
             ck.violation("design model Graph violates %s" % r.invariant, [r.out[-6000:]], tag="model")
-    obs_runs = [("obs1", (2, 2, [1, 2], [1], [0, 1], 1, 0)),
-                ("obs2", (2, 2, [1, 2], [1], [0, 1], 2, 3 if quick else 5))]
-    if not quick:
-        obs_runs.append(("obs1-large", (3, 3, [1, 2, 3], [1, 2], [0, 1], 1, 4)))
-    if not models:
-        obs_runs = []
+        #            MaxN MaxE NObjs EObjs Idxs MaxObs MaxDepth clone
+        obs_runs = [("obs1", (2, 2, [1, 2], [1], [0, 1] if not quick else [0], 1, 0, False)),
+                    ("clone", (2, 2, [1, 2], [1], [0], 2, 3 if quick else 5, True))]      # two observers and a graph copy
+        if not quick:
+            obs_runs.append(("obs2", (2, 2, [1, 2], [1], [0, 1], 2, 5, False)))
+            obs_runs.append(("obs1-large", (3, 3, [1, 2, 3], [1, 2], [0, 1], 1, 4, False)))
+        for name, c in obs_runs:
+            cfg = os.path.join(wd, name + ".cfg")
+            _obs_cfg(cfg, *c)
+            r = vc.model_check(SPEC, "ObserverMC" if c[6] > 0 else "Observer", cfg, coverage=True, timeout=3000, heap="12g")
+            ck.add_model("Observer/" + name, r, "MaxN=%d MaxE=%d NObjs=%s EObjs=%s Idxs=%s MaxObs=%d MaxDepth=%d WithClone=%s" % c)
+            done.append((name, r))
+            if r.invariant:
+                ck.violation("design model Observer/%s violates %s" % (name, r.invariant), [r.out[-6000:]], tag="model")
+        ck.untaken = _merge_untaken(ck.untaken, done)
+    else:
         ck.assumptions.append("design models skipped (VERIF_C14_MODELS=0)")
-    for name, c in obs_runs:
-        cfg = os.path.join(wd, name + ".cfg")
-        _obs_cfg(cfg, *c)
-        r = vc.model_check(SPEC, "ObserverMC" if c[-1] > 0 else "Observer", cfg, coverage=True, timeout=3000, heap="12g")
-        ck.add_model("Observer/" + name, r, "MaxN=%d MaxE=%d NObjs=%s EObjs=%s Idxs=%s MaxObs=%d MaxDepth=%d" % c)
-        if r.invariant:
-            ck.violation("design model Observer/%s violates %s" % (name, r.invariant), [r.out[-6000:]], tag="model")
-    # an action counts as untaken only if no Observer configuration took it
-    ck.untaken = _merge_untaken(ck.untaken)
     # 2. implementation traces
     exe = vc.build_driver("drv_graph", link_lib=True)
     known = _known_ids()
     avoid = ["--avoid", ",".join(known)] if known else []
-    runs = [("random", ["--mode", "random", "--n", 250 if quick else 3000, "--len", 40, "--maxnodes", 8] + avoid)]
-    cfgs = [d + e + i for d in "ud" for e in "ne" for i in "012"]
-    if quick:
-        runs.append(("bfs", ["--mode", "bfs", "--depth", 3, "--maxnodes", 3] + avoid))
-    else:
-        # one driver run per configuration keeps every trace file small enough for the validator
-        # length 5 complete for every configuration; length 6 complete for one undirected configuration
-        # (edge objects, allocated indices) and capped for one directed configuration (reported as truncated)
-        for c in cfgs:
-            if c != "ue2":
-                runs.append(("bfs-" + c, ["--mode", "bfs", "--depth", 5, "--maxnodes", 4, "--cfg", c] + avoid))
-        runs.append(("bfs6-ue2", ["--mode", "bfs", "--depth", 6, "--maxnodes", 4, "--cfg", "ue2"] + avoid))
-        runs.append(("bfs6-de1", ["--mode", "bfs", "--depth", 6, "--maxnodes", 4, "--cfg", "de1", "--cap", 25000] + avoid))
-    for k in known:
-        runs.append(("probe-" + k, ["--mode", "probe", "--name", k]))
-    bfs_sum = {"states": 0, "transitions": 0, "truncated": [], "per_cfg": []}
-    first = True
-    for name, args in runs:
-        tr = os.path.join(wd, "trace-%s.ndjson" % name)
-        if os.path.exists(tr):
-            os.remove(tr)
-        s = vc.run_driver(exe, args, tr, timeout=3000)
-        _driver_ok(ck, name, s, tr)
-        rej = _validate(ck, tr)
-        if name == "random":
-            ck.samples += [[{k: v for k, v in ev.items() if k != "s"} for ev in sc if isinstance(ev, dict)]
-                           for sc in vc.sample_scenarios(tr, 3, maxlines=14)]
-            if not rej and first:
-                _corruption_selftest(ck, tr, wd)
-            first = False
-        if name.startswith("bfs"):
-            bfs_sum["states"] += s.get("states", 0)
-            bfs_sum["transitions"] += s.get("transitions", 0)
-            bfs_sum["per_cfg"] += [[name] + x for x in s.get("per_cfg", [])]
-            if s.get("truncated"):
-                bfs_sum["truncated"].append(name)
+    tr = os.path.join(wd, "trace-random.ndjson")
+    if os.path.exists(tr):
         os.remove(tr)
+    s = vc.run_driver(exe, ["--mode", "random", "--n", 250 if quick else 3000, "--len", 40, "--maxnodes", 8] + avoid, tr, timeout=3000)
+    _driver_ok(ck, "random", s, tr)
+    rej = _validate(ck, tr, parallel=6 if quick else None)
+    ck.samples += [[{k: v for k, v in ev.items() if k != "s"} for ev in sc if isinstance(ev, dict)]
+                   for sc in vc.sample_scenarios(tr, 3, maxlines=14)]
+    if not rej:
+        _corruption_selftest(ck, tr, wd)
+    os.remove(tr)
+    cfgs = [d + e + i for d in "ud" for e in "ne" for i in "012"]
+    bfs_sum = {"states": 0, "transitions": 0, "truncated": [], "per_cfg": []}
+    # every call instance from every state reached by fewer than `depth` calls, <= 4 nodes, all 12 configurations
+    _bfs_runs(ck, exe, wd, cfgs, 5 if quick else 6, 4, avoid, bfs_sum, join=quick)
     ck.extra["bfs"] = bfs_sum
+    for k in known:
+        tr = os.path.join(wd, "trace-probe.ndjson")
+        s = vc.run_driver(exe, ["--mode", "probe", "--name", k], tr)
+        _validate(ck, tr)
+        os.remove(tr)
     ck.exhaustive = True
-    ck.rule = ("random histories of 40 calls over <= 8 nodes (directed/undirected, with/without edge objects, explicit or "
-               "allocated indices, one optional observer copy, ~15% absent operands); breadth-first enumeration of every call "
-               "instance from every reached abstract state (<= maxnodes nodes, depth bound) for 12 configurations; "
+    ck.rule = ("random histories of 40 calls over <= 8 nodes (directed/undirected, self-loops, with/without edge objects, explicit "
+               "or allocated indices, observer copies by copy constructor / converting constructor / operator=, a copy of the "
+               "graph with its own observers, ~15% absent operands); breadth-first enumeration of every call instance from "
+               "every abstract state reached by fewer than 5 (quick) / 6 (thorough) calls, <= 4 nodes, for 12 configurations; "
                "non-trivial = scenario with at least one state-changing call")
     ck.distinct = ck.traces
     ck.assumptions += ["TLC; CommunityModules Json", "harness/drv_graph.cpp projection uses only public queries",
-                      "self-loops only in directed mode; graph iterators are not built on absent nodes (undefined behaviour)",
-                      "breadth-first states are identified up to order-preserving renaming of node ids"]
+                       "graph iterators are not built on absent nodes (undefined behaviour)",
+                       "breadth-first states are identified up to order-preserving renaming of node ids",
+                       "the driver interposes backtrace()/backtrace_symbols() (exception text is never compared)"]
     return ck.finish()
 
 
